@@ -125,3 +125,33 @@ Theorem C01_fit_stops_at_first_bad : forall fexp st rows labels st' out,
   Permutation (mem_ids st') (mem_ids st ++ firstn (first_bad rows) (fit_labels st rows labels)) /\
   (out = Ok <-> first_bad rows = length rows).
 Proof. exact do_fit_stops_at_first_bad. Qed.
+
+(* ---- the loops of fit() and _fit_buffers() are the ones in the source (Proofs/GenTieFit.v) ----
+   Gen/GFit.v holds the statements of the two loop bodies, the pre-loop guards and the label source of
+   BitBirch.fit / BitBirch._fit_buffers as data, extracted on every run (any other statement touching the
+   root, the counter, the sub-cluster or the page manager fails the translation); Model/FitPlan.v gives each
+   step its meaning on the tree model; executing the EXTRACTED body is one step of the model's loop. *)
+From BB Require Import Model.FitPlan Gen.GFit Proofs.GenTieFit.
+Theorem C01_source_tie_fit_loop : forall fexp cf st fp rows l labels,
+  fit_rows fexp cf st (Some fp :: rows) (l :: labels) =
+  fit_rows fexp cf (run_fit_body fexp GFit.fit_loop_body cf st fp l) rows labels.
+Proof. exact fit_rows_step_gen. Qed.
+Theorem C01_source_tie_fit_buffers_loop : forall fexp cf st w b g,
+  fit_bufs fexp cf st w (b :: g) =
+  match run_fit_buffers_body fexp GFit.fit_buffers_loop_body cf st w b
+          (index_source_check (GFit.fit_buffers_index_source false)) with
+  | (st', Ok) => fit_bufs fexp cf st' w g
+  | (st', Err) => (st', Err)
+  end.
+Proof. exact fit_bufs_step_gen. Qed.
+Theorem C01_source_tie_fit_guards : forall fexp st r0 tl labels,
+  do_fit fexp st (r0 :: tl) labels =
+  let nf := match r0 with Some fp => length fp | None => nfeat st end in
+  match run_guards GFit.fit_pre_loop st nf with
+  | (st1, Ok) =>
+      fit_rows fexp (cfg st1) st1 (r0 :: tl)
+        (fit_labels (GFit.fit_label_source (match labels with None => true | Some _ => false end))
+                    st1 (length (r0 :: tl)) (match labels with Some l => l | None => [] end))
+  | (_, Err) => (st, Err)
+  end.
+Proof. exact do_fit_guards_gen. Qed.
